@@ -183,15 +183,20 @@ def mc_c14(results):
     return {'states': st, 'transitions': tr, 'traces_validated_against_impl': tr,
             'state_graph_note': 'states = finite float/double bit patterns visited; transitions = nextFloat/prevFloat (and n-step chains) executed on the implementation; every transition is compared with the reference model, so validated == transitions'}
 
-_C15_TABLE_Q = [('drivers/c01.cpp', [0, 2, 3, 5, 7], [], ['-O1']), ('drivers/c11.cpp', None, ['-lquadmath'], []), ('drivers/c14.cpp', None, [], []), ('drivers/c05.cpp', None, [], []),
-                ('drivers/c18.cpp', None, [], []), ('drivers/c06.cpp', None, [], []), ('drivers/c07.cpp', None, [], []), ('drivers/c13.cpp', None, [], []), ('drivers/c12.cpp', None, [], [])]
-_C15_TABLE_T = [('drivers/c01.cpp', list(range(15)), [], ['-O1'])] + _C15_TABLE_Q[1:] + [('drivers/c02.cpp', [0, 1, 2], [], ['-O1']), ('drivers/c04.cpp', None, [], []), ('drivers/c09.cpp', None, [], ['-DC09_RECOMPOSE_DOUBLE']), ('drivers/c10.cpp', None, [], []), ('drivers/c19.cpp', None, [], [])]
+_C15_TABLE_Q = [('drivers/c01.cpp', [0, 3, 5, 7], [], ['-O1']), ('drivers/c11.cpp', None, ['-lquadmath'], []), ('drivers/c14.cpp', None, [], []), ('drivers/c05.cpp', None, [], []),
+                ('drivers/c18.cpp', None, [], []), ('drivers/c06.cpp', None, [], []), ('drivers/c13.cpp', None, [], [])]
+_C15_TABLE_T = [('drivers/c01.cpp', list(range(15)), [], ['-O1'])] + _C15_TABLE_Q[1:] + [('drivers/c07.cpp', None, [], []), ('drivers/c12.cpp', None, [], []), ('drivers/c02.cpp', [0, 1, 2], [], ['-O1']), ('drivers/c04.cpp', None, [], []), ('drivers/c09.cpp', None, [], ['-DC09_RECOMPOSE_DOUBLE']), ('drivers/c10.cpp', None, [], []), ('drivers/c19.cpp', None, [], [])]
 
 PROPS = {
- 'C15': dict(run=run_differential, replay=replay_differential, level='exploration', src='drivers/c01.cpp', cap=60000,
+ 'C16': dict(src='drivers/c16.cpp', level='exploration', parts=6, flags=['-O0'],
+   configs=['default', 'swizzle', 'xyzw_only', 'size_t_length', 'quat_wxyz', 'ctor_init', 'cxx98', 'intr_sse2', 'intr_avx', 'intr_avx2', 'intr_avx2_defaligned', 'swizzle_intr'],
+   technique='exhaustive enumeration of the program space: every vec<L,T,Q>, mat<C,R,T,Q>, qua<T,Q> instantiation (L 1..4, C,R 2..4, 11 element types, packed and - with intrinsics - aligned qualifiers) x 12 build configurations, each layout fact observed by executing the generated program and compared with the documented contract',
+   text='For every instantiation and configuration: sizeof, alignof, component addresses (&v[i] == &v.x + i, column addresses), named-member order incl. quaternion x,y,z,w / w,x,y,z, value_ptr aliasing value_ptr(m)[c*R+r] == m[c][r], byte image through value_ptr vs operator[], make_vec/make_mat/make_quat round trips, length() value and type (int / size_t), trivially-copyable round trip. Facts are observed at run time, so one wrong fact does not hide the rest; 462 (packed) or 924 (with aligned types) instantiations per configuration, complete.',
+   rule='INSTANTIATIONS = complete table of type descriptors (kind|C|R|T|Q) per configuration; every fact op enumerates the whole table; quick and thorough are the same complete set.'),
+ 'C15': dict(run=run_differential, replay=replay_differential, level='exploration', src='drivers/c01.cpp', cap=20000,
    table_quick=_C15_TABLE_Q, table_thorough=_C15_TABLE_T,
-   configs_quick=['cxx98', 'cxx20', 'ctor_init', 'explicit_ctor', 'size_t_length', 'xyzw_only', 'swizzle', 'unrestricted_gentype', 'quat_wxyz', 'pure', 'O0', 'O3'],
-   configs_thorough=['cxx98', 'cxx03', 'cxx11', 'cxx14', 'cxx17', 'cxx20', 'cxx_unknown', 'inline', 'ctor_init', 'explicit_ctor', 'size_t_length', 'xyzw_only', 'swizzle', 'swizzle_intr', 'unrestricted_gentype', 'quat_wxyz', 'pure', 'compiler_unknown', 'platform_unknown', 'arch_unknown', 'O0', 'O3', 'clang', 'clang_O0'],
+   configs_quick=['cxx98', 'combo_types', 'combo_env', 'O0', 'O3'],
+   configs_thorough=['cxx98', 'cxx03', 'cxx11', 'cxx14', 'cxx17', 'cxx20', 'cxx_unknown', 'inline', 'ctor_init', 'explicit_ctor', 'size_t_length', 'xyzw_only', 'swizzle', 'swizzle_intr', 'unrestricted_gentype', 'quat_wxyz', 'pure', 'compiler_unknown', 'platform_unknown', 'arch_unknown', 'O0', 'O3', 'clang', 'clang_O0', 'combo_types', 'combo_env'],
    technique='exhaustive differential exploration over the configuration lattice: the same operation table (the drivers of the other properties, with their complete quick/thorough input domains) is compiled once per non-semantic configuration and every per-operation observation digest must equal the baseline build; a differing digest is bisected to the first differing input',
    text='Every non-semantic macro / language level / optimisation level / compiler is one point of the configuration lattice and one separate build of the same driver sources from the working tree. Each driver op accumulates a digest of every value GLM returned on every enumerated input (C01: every scalar and vector result of every function x L x T x Q; C11/C14: the std-versus-fallback sensitive functions on the float lattices; integer, packing, quaternion and geometric drivers). Digest equality with the baseline is required for every (op, configuration); results are expressed through named members so storage-order switches are compared by value.',
    rule='configurations x operation table (see coverage.operation_table) x the quick (thorough) domains of those drivers; evaluations are summed over all builds; a case is non-trivial as defined by its driver.'),
